@@ -396,6 +396,31 @@ def rule_pivot_policy(mod, rep, which=("user", "diag", "max", "record", "swap", 
                 bv = strip_casts(f, l2[2])
                 if bv[0] == "v" and f.inst[bv[1]].op == "sub" and strip_casts(f, f.inst[bv[1]].ops[0]) == ["a", kj]:
                     okswap = True
+        if not okswap:
+            # the interchange moved into a static helper: a loop `<= nsupc` over a pointer parameter that receives an address inside lusup[]
+            from .ext import _owned_helpers
+            for (hh_, call_, g_) in _owned_helpers(mod, f):
+                if g_ is not f:
+                    continue
+                for h2, b2 in hh_.loops():
+                    l2 = loop_bound(hh_, h2, b2)
+                    if not l2 or l2[1] != "sle":
+                        continue
+                    bv = strip_casts(hh_, l2[2])
+                    if bv[0] != "a" or bv[1] >= len(call_.ops):
+                        continue
+                    cb = strip_casts(f, call_.ops[bv[1]])
+                    bound_ok = cb[0] == "v" and f.inst[cb[1]].op == "sub" and strip_casts(f, f.inst[cb[1]].ops[0]) == ["a", kj]
+                    stores_lusup = False
+                    for b in b2:
+                        for s_ in hh_.blocks[b].insts:
+                            if s_.op == "store" or (s_.op == "call" and (s_.callee or "").startswith("llvm.memcpy")):
+                                tgt_ = s_.ops[1] if s_.op == "store" else s_.ops[0]
+                                for p_ in hh_.paths(tgt_):
+                                    if p_[0][0] == "A" and p_[0][1] < len(call_.ops) and any(any(st[0] == "f" and st[2] == "lusup" for st in q if isinstance(st, tuple) and len(st) >= 3) for q in f.paths(call_.ops[p_[0][1]])):
+                                        stores_lusup = True
+                    if bound_ok and stores_lusup:
+                        okswap = True
         rep.check(okswap, "P-POLICY", "%s#interchange" % f.name, "row interchange loop runs icol = 0..nsupc inclusive",
                   "the numerical row interchange does not cover columns 0..nsupc of the supernode", f.file, f.name)
 
